@@ -10,7 +10,7 @@ RULE = ("case = one container destination (vector<int/string/double>, list, dequ
         "unordered_set, queue, stack, priority_queue, int[4], array<int,3>, tuple<int,string,double>, bitset<16>, vector<bool>, "
         "DynamicBitset, map<string,int>, multimap<int,string>, unordered_map<string,string>) with a legal option combination "
         "(list separator, clear-before-assign, sort, unique / unique-as-error, multi-value, unset-flag, per-element "
-        "lower/upper/range checks and case formats, pre-existing content) + one element sequence of length 1..10 over a small "
+        "lower/upper/range checks, case formats for all values and per value position (addFormatPos), pre-existing content) + one element sequence of length 1..10 over a small "
         "domain (duplicates frequent) + up to 6 CUTS of that sequence into repeated uses, separator-joined lists (also with "
         "empty elements '1,,2', leading/trailing separator) and free values in multi-value mode. scenario = one cut executed on "
         "the real handler. Oracle: (a) all cuts of one sequence give the identical destination (needs no model); (b) the "
@@ -86,6 +86,10 @@ def gen_arg(rng, kind):
         a.checks.append(rng.choice([("lower", 0, "int"), ("upper", 7, "int"), ("range", 0, 7, "int"), ("lower", 2, "int"), ("upper", 5, "int"), ("range", 1, 6, "int")]))
     if et == "string" and rng.random() < 0.25:
         a.formats.append(rng.choice(["upper", "lower"]))
+    if kind in ("vs", "tu") and rng.random() < 0.4:
+        # formats per value position: the position in the destination, however the values were split over uses
+        for i in rng.sample(range(5) if kind == "vs" else [1], rng.choice([1, 1, 2]) if kind == "vs" else 1):
+            a.posformats.append((i, rng.choice(["upper", "lower"])))
     # initial content
     if kind in ("ca", "ar"):
         n = CAPACITY[kind]
@@ -158,7 +162,7 @@ def model(a, elems_by_use):
             raise Reject("too-many")
         if len(flat) < 3:
             raise Reject("too-few")
-        cur = [argh.conv("int", flat[0]), flat[1], float(flat[2])]
+        cur = [argh.conv("int", flat[0]), argh.fmt_elem(a, flat[1], 1), float(flat[2])]
         return cur
     if kind in ("bs", "vb", "db"):
         if kind == "bs":
@@ -212,7 +216,7 @@ def model(a, elems_by_use):
         cur = []
     for u in elems_by_use:
         for e in u:
-            v = argh.conv(et, argh.fmt_elem(a, e))
+            v = argh.conv(et, argh.fmt_elem(a, e, len(cur)))
             if a.unique and v in cur:
                 if a.uniqueerr:
                     raise Reject("duplicate")
@@ -470,7 +474,9 @@ def judge(c, results, rep):
 
 
 def opts(a):
-    return ",".join(o for o in ("clear", "sort", "unique", "uniqueerr", "multi", "unset") if getattr(a, o)) + (",sep=" + a.sep if a.sep else "")
+    return ",".join(o for o in ("clear", "sort", "unique", "uniqueerr", "multi", "unset") if getattr(a, o)) + (",sep=" + a.sep if a.sep else "") + \
+        "".join(",fmt=" + f for f in a.formats) + "".join(",fmtpos=%d:%s" % (i, f) for i, f in a.posformats) + \
+        "".join(",%s=%s" % (c[0], ":".join(str(x) for x in c[1:-1])) for c in a.checks)
 
 
 def run(tier, seed, modes=None):
